@@ -167,7 +167,7 @@ func TestC12_FingerAfterDisconnect(t *testing.T) {
 // patch in notes/proposed-fixes/C12-uptime-conn-nil-after-check.diff).  Uptime and ConnSince check
 // IsConnected() and read c.conn in a second critical section; a teardown in between leaves c.conn
 // nil.  Pollers call both while connections are set up and closed; a recovered panic is the failure.
-func TestPendingC12_UptimeDuringTeardown(t *testing.T) {
+func TestC12_UptimeDuringTeardown(t *testing.T) {
 	for cycle := 0; cycle < 60; cycle++ {
 		c := locksClient()
 		in, done := locksMock(c)
